@@ -159,7 +159,8 @@ prop("C10", source_level=True, coq_deps=WIRE_DEPS + SRC_DEPS,
      theorems=["C10_unmarshal_total", "C10_unmarshal_with_base_total", "C10_block_decode_total", "C10_policies_decode_total",
                "C10_verify_total", "C10_accepted_sizes", "C10_append_total", "C10_seal_total", "C10_expressions_total",
                "C10_blocks_phase_total", "C10_authorize_total",
-               "C10_source_str_total", "C10_source_var_total", "C10_source_str_is_model", "C10_source_var_is_model"],
+               "C10_source_str_total", "C10_source_var_total", "C10_source_str_is_model", "C10_source_var_is_model",
+               "C10_source_evaluate_total", "C10_source_evaluate_is_model"],
      level_text="PARTIAL proof: every modelled stage (wire decoding incl. protobuf-go's required-field fast path, conversion, size gates, "
                 "symbol check, signature verification, append, seal, expression evaluation, authorization) is a total function whose explicit "
                 "Panic outcome is proved unreachable for every byte string; the crash-freedom of protobuf-go, regexp, fmt and time themselves "
